@@ -149,7 +149,11 @@ type Task struct {
 	mapCtr    map[int]int // per-request counters of map-order decisions (task-local, so a task's orders do not depend on its neighbours)
 }
 
-const DefaultFuel = 10000000
+// DefaultFuel: steps one request may take. A liveness bound, not a performance bound: the most
+// expensive terminating request of the usual size (a generated series of aspiration levels that
+// runs into the library's bound of 10 000 levels, a dozen alternatives, a dozen criteria) needs
+// about 10^7 steps, so the budget sits well above that.
+const DefaultFuel = 50000000
 
 type fuelExhausted struct{ site int }
 
